@@ -1,7 +1,8 @@
 """C20 extractor: api/src/term/_native_literal.rs (+ ns.rs, _native_iri.rs) -> Gen/NativeWhitelist.lean
 
-Regenerated from /repo's working tree on every run; FAIL-CLOSED: every `impl` block of the file
-must have one of the shapes understood here, otherwise ExtractError (a check treats that as a
+Regenerated from /repo's working tree on every run; FAIL-CLOSED: every `impl` block of the file for one of the
+property's six types must have one of the shapes understood here (impls for other types are listed as
+`native_unmodelled_impls`), otherwise ExtractError (a check treats that as a
 broken tie, never as success).
 
 What is read:
@@ -30,20 +31,51 @@ TRY_TYPES = ["f64", "i32", "isize", "usize", "bool"]
 
 
 def _strip_comments(text):
+    """remove `//` line comments and (nested) `/* */` block comments, leaving string and char literals
+    alone; raw strings (r"..", r#".."#) are not understood: fail closed"""
+    if re.search(r'\br#*"', text):
+        raise ExtractError("raw string literal in %s: comment stripping unsafe" % SRC)  # noqa: F821
     out = []
-    for line in text.split("\n"):
-        if line.lstrip().startswith("//"):
-            out.append("")
-            continue
-        i = line.find("//")
-        # a trailing comment on a code line that also has a string literal: fail closed
-        if i >= 0 and '"' in line:
-            raise ExtractError("'//' on a line with a string literal in %s: comment stripping unsafe" % SRC)  # noqa: F821
-        out.append(line if i < 0 else line[:i])
-    text = "\n".join(out)
-    if "/*" in text:
-        raise ExtractError("block comment in %s: unsupported" % SRC)  # noqa: F821
-    return text
+    j = 0
+    n = len(text)
+    while j < n:
+        c = text[j]
+        if c == '"':
+            k = j + 1
+            while k < n and text[k] != '"':
+                if text[k] == "\\":
+                    k += 1
+                k += 1
+            out.append(text[j:k + 1])
+            j = k + 1
+        elif c == "'" and j + 2 < n and (text[j + 2] == "'" or (text[j + 1] == "\\" and text.find("'", j + 2) in range(j + 2, j + 12))):
+            # char literal ('x', '\n', '\u{..}'); a lifetime ('a) has no closing quote right after
+            k = text.find("'", j + 2) if text[j + 1] == "\\" else j + 2
+            out.append(text[j:k + 1])
+            j = k + 1
+        elif text.startswith("//", j):
+            k = text.find("\n", j)
+            j = n if k < 0 else k
+        elif text.startswith("/*", j):
+            depth = 1
+            k = j + 2
+            while k < n and depth:
+                if text.startswith("/*", k):
+                    depth += 1
+                    k += 2
+                elif text.startswith("*/", k):
+                    depth -= 1
+                    k += 2
+                else:
+                    k += 1
+            if depth:
+                raise ExtractError("unterminated block comment in %s" % SRC)  # noqa: F821
+            out.append(" ")
+            j = k
+        else:
+            out.append(c)
+            j += 1
+    return "".join(out)
 
 
 def _match_brace(text, i):
@@ -179,7 +211,8 @@ LEX_BOOL = re.compile(r'Some\(MownStr::from\(if\*self\{"([^"\\]*)"\}else\{"([^"\
 # non-finite values special-cased (shape of notes/fixes/C20-inf.diff)
 LEX_SPECIAL = re.compile(
     r'Some\(ifself\.is_nan\(\)\{MownStr::from\("([^"\\]*)"\)\}'
-    r'elseifself\.is_infinite\(\)\{MownStr::from\(if\*self>0\.0\{"([^"\\]*)"\}else\{"([^"\\]*)"\}\)\}'
+    r'elseifself\.is_infinite\(\)\{MownStr::from\(if(?:\*self>0\.0|self\.is_sign_positive\(\)|0\.0<\*self)'
+    r'\{"([^"\\]*)"\}else\{"([^"\\]*)"\}\)\}'
     r'else\{MownStr::from\(format!\("\{\}",self\)\)\}\)')
 DATATYPE = re.compile(r"Some\(IriRef::new_unchecked\(MownStr::from_ref\(&(\w+)\)\)\)")
 TRY = re.compile(
@@ -207,8 +240,13 @@ def extract_native(repo):
     impls = _impls(text)
     if len(re.findall(r"\bimpl\b", text)) != len(impls):
         raise ExtractError("%s: an `impl` that is not a plain top-level `impl Trait for Type`" % SRC)  # noqa: F821
-    seen = [(tr, ty) for tr, ty, _ in impls]
     want = [("Term", t) for t in TERM_TYPES] + [("TryFromTerm", t) for t in TRY_TYPES]
+    # impls of Term / TryFromTerm for OTHER types (say i64, u32, String) are outside the property's six types:
+    # reported, not modelled, and no reason to fail.  Anything about the six types must be exactly as expected.
+    unmodelled = sorted((tr, ty) for tr, ty, _ in impls
+                        if tr in ("Term", "TryFromTerm") and ty not in TERM_TYPES)
+    impls = [(tr, ty, b) for tr, ty, b in impls if (tr, ty) not in unmodelled]
+    seen = [(tr, ty) for tr, ty, _ in impls]
     if sorted(seen) != sorted(want):
         raise ExtractError("%s: impl blocks are %s, the model knows %s" % (SRC, sorted(seen), sorted(want)))  # noqa: F821
 
@@ -294,7 +332,8 @@ def extract_native(repo):
     L.append("\nend SophiaModel.Gen.Native\n")
     info = {"native_whitelists": {ty: try_info[ty][0] for ty in TRY_TYPES},
             "native_datatypes": {ty: term_info[ty][0] for ty in TERM_TYPES},
-            "native_lex_shapes": {ty: list(term_info[ty][1]) for ty in TERM_TYPES}}
+            "native_lex_shapes": {ty: list(term_info[ty][1]) for ty in TERM_TYPES},
+            "native_unmodelled_impls": ["%s for %s" % x for x in unmodelled]}
     return "".join(L), info
 
 
